@@ -224,9 +224,28 @@ fn scan_ranges(plan: &RecExpr) -> Vec<Value> {
     out
 }
 
+fn catalog_json(catalog: &RootCatalogRef) -> Value {
+    let mut tabs = vec![];
+    if let Some(schema) = catalog.get_schema_by_name("postgres") {
+        for (id, t) in schema.all_tables() {
+            let cols: Vec<Value> = t
+                .all_columns()
+                .iter()
+                .map(|(cid, c)| {
+                    json!({"id": cid, "name": c.name(), "type": c.data_type().to_string(),
+                           "nullable": c.is_nullable(), "primary": c.is_primary()})
+                })
+                .collect();
+            tabs.push(json!({"id": id, "name": t.name(), "view": t.is_view(), "columns": cols}));
+        }
+    }
+    json!({"catalog": tabs})
+}
+
 async fn cmd_plans(input: Value) {
     let sess = Session::new();
     sess.setup(&strs(&input["setup"])).await;
+    println!("{}", catalog_json(&sess.catalog));
     let configs = input["configs"].as_array().cloned().unwrap_or_default();
     for sql in strs(&input["queries"]) {
         let stmts = match risinglight::parser::parse(&sql) {
@@ -248,7 +267,14 @@ async fn cmd_plans(input: Value) {
             let mut opts = serde_json::Map::new();
             for cfg in &configs {
                 let opt = sess.optimizer(cfg);
-                let o = std::panic::catch_unwind(std::panic::AssertUnwindSafe(|| opt.optimize(plan.clone())));
+                let ban = strs(&cfg["ban"]);
+                let o = std::panic::catch_unwind(std::panic::AssertUnwindSafe(|| {
+                    if ban.is_empty() {
+                        opt.optimize(plan.clone())
+                    } else {
+                        opt.verif_optimize_without(plan.clone(), &ban)
+                    }
+                }));
                 let name = cfg["name"].as_str().unwrap().to_string();
                 match o {
                     Ok(o) => {
